@@ -17,11 +17,15 @@ def setup():
     if LK is not None:
         return
     LK, UT, EXC = common.mako("lookup", "util", "exceptions")
+    ORIG.update(os=LK.os, Template=LK.Template, threading=LK.threading, timeit=UT.timeit, operator=UT.operator)
 
 
 def kernel():
     T = LK.TemplateLookup
     return [T.get_template, T._check, T._load, T.put_template, UT.LRUCache.__getitem__, UT.LRUCache.__setitem__, UT.LRUCache._manage_size]
+
+
+ORIG = {}
 
 
 class Deadlock(Exception):
@@ -253,6 +257,65 @@ def h_sched(name):
     return h
 
 
+# ------------------------------------------------------------------ concurrent renders of one Template
+RENDER_FILES = {
+    "/base": "<html>${sp()}${self.title()}|${next.body()}|${sp()}</html><%def name='title()'>base-${who}</%def>",
+    "/lib": "<%def name='box(x)'>[${sp()}${x}:${who}${caller.body() if caller else ''}]</%def>",
+    "/main": "<%inherit file='/base'/><%namespace name='lib' file='/lib'/>"
+             "<%def name='title()'>T-${who}${sp()}</%def>"
+             "<%def name='row(i)'>${sp()}r${i}${who}</%def>\n"
+             "% for i in range(2):\n${loop.index}${row(i)}${sp()}\n% endfor\n"
+             "<%lib:box x='${who}'>in-${who}${sp()}</%lib:box>${capture(row, 9)}<%include file='/inc'/>",
+    "/inc": "inc-${who}${sp()}",
+}
+
+
+def h_render(p):
+    import mako.lookup as RLK      # rendering is not stubbed, only scheduled: undo the stubs of the lookup scenarios
+    LK.os, LK.Template, LK.threading = ORIG["os"], ORIG["Template"], ORIG["threading"]
+    UT.timeit, UT.operator = ORIG["timeit"], ORIG["operator"]
+    sched = Sched(p, 3)
+    lk = RLK.TemplateLookup()
+    for k, v in RENDER_FILES.items():
+        lk.put_string(k, v)
+    t = lk.get_template("/main")
+    solo = {}
+    for who in ("A", "B"):
+        solo[who] = t.render(who=who, sp=lambda: "")
+
+    def sp():
+        sched.point("template")
+        return ""
+
+    def make(who):
+        return lambda: t.render(who=who, sp=sp)
+
+    ths = [sched.spawn("T%d" % i, make(w)) for i, w in enumerate(("A", "B"))]
+    dead = None
+    try:
+        sched.run()
+    except Deadlock as e:
+        dead = e
+    return dict(solo=solo, results=[x.result for x in ths], excs=[x.exc for x in ths], trace=list(sched.trace), deadlock=dead)
+
+
+def on_render(p, r, exc, acc):
+    if exc is not None:
+        acc.candidate(kind="harness-exception", input=None, detail="%s: %s" % (type(exc).__name__, str(exc)[:300]))
+        return
+    acc.tags["asserted"] += 1
+    desc = dict(scenario="concurrent-renders", schedule=[("%s:%s" % x) for x in r["trace"]])
+    acc.vcs += 1
+    if r["deadlock"] is not None or any(e is not None for e in r["excs"]):
+        acc.candidate(kind="render-thread-failed", input=desc, detail=repr(r["excs"]))
+        return
+    for who, got in zip(("A", "B"), r["results"]):
+        acc.vcs += 1
+        if got != r["solo"][who]:
+            acc.candidate(kind="render-output-depends-on-interleaving", input=desc, detail="render for %s gave %r, alone it gives %r" % (who, got, r["solo"][who]))
+    acc.sample(dict(schedule_length=len(r["trace"])))
+
+
 def on_sched(p, r, exc, acc):
     if exc is not None:
         acc.candidate(kind="harness-exception", input=None, detail="%s: %s" % (type(exc).__name__, str(exc)[:300]))
@@ -310,6 +373,36 @@ import mako.lookup as LK, mako.util as UT
 from mako import exceptions as EXC
 from props.C16 import SCENARIOS, SCENARIOS3
 print("scenario:", CASE["scenario"]); print("schedule:", CASE["schedule"])
+if CASE["scenario"] == "concurrent-renders":
+    from props.C16 import RENDER_FILES
+    from mako.lookup import TemplateLookup
+    lk = TemplateLookup()
+    for k_, v_ in RENDER_FILES.items(): lk.put_string(k_, v_)
+    t = lk.get_template("/main")
+    solo = {w: t.render(who=w, sp=lambda: "") for w in ("A", "B")}
+    order = [s.split(":")[0] for s in CASE["schedule"]]
+    turn = {"i": 0}; cv = threading.Condition(); names = {}
+    def sp():
+        me = names.get(threading.current_thread())
+        with cv:
+            deadline = time.time() + 3
+            while turn["i"] < len(order) and order[turn["i"]] != me and time.time() < deadline: cv.wait(0.02)
+            turn["i"] += 1; cv.notify_all()
+        return ""
+    res = {}
+    def run_(i, w):
+        names[threading.current_thread()] = "T%d" % i
+        try: res[w] = t.render(who=w, sp=sp)
+        except Exception as e: res[w] = "raised %s: %s" % (type(e).__name__, e)
+    ths = [threading.Thread(target=run_, args=(i, w), daemon=True) for i, w in enumerate(("A", "B"))]
+    for x in ths: x.start()
+    for x in ths: x.join(20)
+    bad = None
+    for w in ("A", "B"):
+        print(w, "->", repr(res.get(w)), "| alone:", repr(solo[w]))
+        if res.get(w) != solo[w]: bad = "a concurrent render produced different output than when run alone"
+    print("VIOLATED: " + bad if bad else "HOLDS")
+    os._exit(1 if bad else 0)
 size, programs = (SCENARIOS.get(CASE["scenario"]) or SCENARIOS3[CASE["scenario"]])
 order = [s.split(":")[0] for s in CASE["schedule"]]
 turn = {"i": 0}
@@ -422,10 +515,13 @@ def run(check, tier):
         "Template is a constructor stub (may fail to compile, records the mtime it read); the file system and clock are stubs",
         "the solver's part is the feasibility / exhaustion of schedule choices; results are concrete per schedule")
     check.not_claimed("preemption at arbitrary byte-code boundaries inside dict operations", "three or more threads",
-                      "concurrent RENDERS (per-render Context, lazily memoised Template.cache / reserved_names, lexer regexp cache)")
+                      "concurrent renders beyond template-level scheduling points (byte-code level races in lazily memoised Template.cache / "
+                      "reserved_names / the lexer's regexp cache)")
     jobs = []
     for name in SCENARIOS:
         jobs.append(("C16-" + name, h_sched(name), on_sched, "all schedules of scenario %s" % name, dict(scenario=SCENARIOS[name].__repr__()), ("asserted",)))
+    jobs.append(("C16-renders", h_render, on_render, "two concurrent renders of one inheriting / namespace-using Template with different contexts, "
+                 "scheduling points inside the templates, at most 3 preemptions", dict(points="sp() calls in body, defs, call bodies, includes, base template"), ("asserted",)))
     if tier == "thorough":
         for name in SCENARIOS3:
             jobs.append(("C16-" + name, h_sched(name), on_sched, "three threads, every schedule with at most 2 preemptions: %s" % name,
